@@ -114,23 +114,47 @@ Definition shift_r (l r p : Z) : outcome Z :=
      sw_calls  number of calls of shift_l / shift_r made (the entry call included),
      sw_built  exponent k of the power of two `num_traits::pow(two, usize_repr)` it materialises
                (None: none is built - error, or the early `return Ok(0)`),
-     sw_bits   bit size of the largest intermediate value it computes from that power
-               (`left * 2^k` for a left shift, `2^k` itself for a right shift; 0 when none).
-   The leaves are shl_direct / shr_direct themselves, so that the value part cannot drift from the
-   functions the refinement theorems are about (Proofs.FieldProofs.shift_w_value proves that the value
-   is shift_l / shift_r for every fuel >= 2 and ALL integer operands). *)
+     sw_bits   bit size of the largest of: that power, the product `left * 2^k` formed from it
+               (left shift), and the power 2^radix_len(p) from which `mask(field)` is made (left shift);
+               0 when no power is built.  NOT in the record: `field - right`, `field / 2`, the results
+               of `&`, `/` and `%` (which only shrink their operands) and the digit vectors of
+               `to_radix_le(2)` (one byte per bit of the field, resp. of the operand).
+   Value and work come from ONE definition (fourth audit: the work used to be computed by a second
+   copy of the guards): [pow2_tick k w] is the only way a power of two enters a value, and it is what
+   writes the record; Proofs.FieldProofs.shl_direct_w_value / shr_direct_w_value prove that the value
+   part is shl_direct / shr_direct, shift_w_value that the recursion's value is shift_l / shift_r. *)
 Record shift_work := { sw_calls : nat; sw_built : option Z; sw_bits : Z }.
 
-Definition direct_work (left : bool) (l r p : Z) : shift_work :=
+Definition no_work : shift_work := {| sw_calls := 1; sw_built := None; sw_bits := 0 |}.
+
+(* `num_traits::pow(two, k)`: the power, and the record saying that it was built *)
+Definition pow2_tick (k : Z) (w : shift_work) : Z * shift_work :=
+  (2 ^ k, {| sw_calls := sw_calls w; sw_built := Some k; sw_bits := Z.max (sw_bits w) (bits (2 ^ k)) |}).
+
+(* a value computed from the power: its size enters the record *)
+Definition sized (v : Z) (w : shift_work) : Z * shift_work :=
+  (v, {| sw_calls := sw_calls w; sw_built := sw_built w; sw_bits := Z.max (sw_bits w) (bits v) |}).
+
+Definition shl_direct_w (l r p : Z) : outcome Z * shift_work :=
   match to_usize r with
-  | None => {| sw_calls := 1; sw_built := None; sw_bits := 0 |}
+  | None => (Err EDivisionByZero, no_work)
   | Some k =>
-    if left then
-      if radix_len p <=? k then {| sw_calls := 1; sw_built := None; sw_bits := 0 |}
-      else {| sw_calls := 1; sw_built := Some k; sw_bits := bits (l * 2 ^ k) |}
+    if radix_len p <=? k then (Ok 0, no_work)
     else
-      if bits l <=? k then {| sw_calls := 1; sw_built := None; sw_bits := 0 |}
-      else {| sw_calls := 1; sw_built := Some k; sw_bits := bits (2 ^ k) |}
+      let '(pw, w1) := pow2_tick k no_work in
+      let '(prod, w2) := sized (l * pw) w1 in
+      let '(mpow, w3) := sized (2 ^ radix_len p) w2 in        (* mask(field) = 2^b - 1 *)
+      (Ok (modulus (Z.land prod (mpow - 1)) p), w3)
+  end.
+
+Definition shr_direct_w (l r p : Z) : outcome Z * shift_work :=
+  match to_usize r with
+  | None => (Err EDivisionByZero, no_work)
+  | Some k =>
+    if bits l <=? k then (Ok 0, no_work)
+    else
+      let '(pw, w1) := pow2_tick k no_work in
+      (Ok (Z.quot l pw), w1)
   end.
 
 Fixpoint shift_w (fuel : nat) (left : bool) (l r p : Z) : outcome Z * shift_work :=
@@ -139,7 +163,7 @@ Fixpoint shift_w (fuel : nat) (left : bool) (l r p : Z) : outcome Z * shift_work
   | S n =>
     let top := Z.quot p 2 in
     if r <=? top then
-      ((if left then shl_direct l r p else shr_direct l r p), direct_work left l r p)
+      (if left then shl_direct_w l r p else shr_direct_w l r p)
     else
       let '(res, w) := shift_w n (negb left) l (p - r) p in
       (res, {| sw_calls := S (sw_calls w); sw_built := sw_built w; sw_bits := sw_bits w |})
